@@ -58,11 +58,39 @@ def candidates(tier):
     return out, n_exh
 
 
+def kani_parse_u32():
+    """thorough tier: complete (operand-width bounded) Kani proof of str::parse::<u32> on 1..=10 ASCII digits."""
+    scratch = "/var/tmp/verif-kani-parse-%d" % os.getpid()
+    shutil.rmtree(scratch, ignore_errors=True)
+    try:
+        shutil.copytree(os.path.join(ROOT, "kani", "parse_u32"), scratch + "/crate")
+        env = dict(os.environ, CARGO_TARGET_DIR=scratch + "/target", CARGO_NET_OFFLINE="true")
+        t0 = time.time()
+        r = subprocess.run(["cargo", "kani", "--harness", "parse_u32_on_digit_strings"], cwd=scratch + "/crate", env=env, capture_output=True, text=True, timeout=3000)
+        out = r.stdout + r.stderr
+        ok = "VERIFICATION:- SUCCESSFUL" in out
+        import re
+        m = re.search(r"\*\* (\d+) of (\d+) failed", out)
+        return {"backend": "kani 0.68 / cbmc", "harness": "kani/parse_u32: parse_u32_on_digit_strings", "successful": ok,
+                "checks": int(m.group(2)) if m else None, "failed": int(m.group(1)) if m else None, "bound": "1..=10 digits, unwind 12 with unwinding assertions (complete for this input class)",
+                "wall_s": round(time.time() - t0, 1)}
+    except Exception as e:
+        return {"error": repr(e)}
+    finally:
+        shutil.rmtree(scratch, ignore_errors=True)
+
+
 def run(tier, seed):
     t0 = time.time()
     gen = os.environ.get("VERIF_GEN") or os.path.join(ROOT, "generated")
     os.makedirs(gen, exist_ok=True)
     res = {"bounded": True, "violations": [], "obligations": 0, "discharged": 0}
+    if tier == "thorough":
+        kp = kani_parse_u32()
+        res["kani_parse_u32"] = kp
+        if kp.get("successful"):
+            res["obligations"] += 1
+            res["discharged"] += 1
     # 1. verify + compile the oracle with Verus
     oracle = os.path.join(gen, "c12_oracle")
     r = subprocess.run(["verus", os.path.join(ROOT, "spec", "c12_oracle.rs"), "--triggers-mode", "silent", "--compile", "-o", oracle],
